@@ -1,0 +1,107 @@
+// Copyright (C) The Arvados Authors. All rights reserved.
+//
+// SPDX-License-Identifier: AGPL-3.0
+
+//go:build verif
+// +build verif
+
+// Machine-checked contracts (read by /verif/bin/govc; never compiled into
+// normal builds).  See /verif/DESIGN.md section 3 for the language.
+
+package main
+
+// ------------------------------------------------------------------ assumed
+// Volume back ends are arbitrary: whatever bytes a volume holds (every
+// corruption pattern) is covered by "Get fills buf with anything".
+//@ iface Volume.Get
+//@   modifies mem:byte
+//@   ensures result1 == nil ==> 0 <= result0 && result0 <= len(buf)
+//@ iface Volume.Compare
+//@   modifies nothing
+//@ iface Volume.Touch
+//@   modifies nothing
+//@   ensures result != iface(CollisionError)
+//@ iface Context.Err pure
+//@   modifies nothing
+//@   ensures result == nil || result == context.Canceled || result == context.DeadlineExceeded
+//@ iface Volume.Put
+//@   modifies nothing
+//@ func RRVolumeManager.AllReadable trusted
+//@   modifies nothing
+//@ func RRVolumeManager.AllWritable trusted
+//@   modifies nothing
+//@ func RRVolumeManager.NextWritable trusted
+//@   modifies RRVolumeManager.counter
+//@ pure ctxlog.FromContext
+//@ func GetAPIToken trusted
+//@   modifies nothing
+//@ func contextForResponse trusted
+//@   modifies nothing
+//@ func getBufferWithContext trusted
+//@   modifies nothing
+//@ func bufferPool.Put trusted
+//@   modifies nothing
+
+// --------------------------------------------------------------------- C01
+
+//@ func GetBlock property C01
+//@   ghost tried int = 0
+//@   ghost nvols int = 0
+//@   calls volmgr.AllReadable#1: set nvols = len($r)
+//@   calls Volume.Get#1: set tried = tried + 1
+//@   ensures result1 == nil ==> 0 <= result0 && result0 <= len(buf) && md5hex(string(buf[0:result0])) == hash
+//@   ensures result1 != nil ==> result0 == 0
+//@   ensures result1 != nil && result1 != iface(ErrClientDisconnect) ==> tried == nvols
+//@   loop 1: invariant tried == $i && nvols == $n && hash == old(hash) && buf == old(buf)
+
+//@ func CompareAndTouch property C01
+//@   ghost cmpok bool = false
+//@   ghost touched bool = false
+//@   ghost collided bool = false
+//@   calls Volume.Compare#1: requires $1 == hash && $2 == buf
+//@   calls Volume.Compare#1: set cmpok = ($r == nil)
+//@   calls Volume.Compare#1: set collided = collided || $r == iface(CollisionError)
+//@   calls Volume.Touch#1: requires cmpok && $0 == hash
+//@   calls Volume.Touch#1: set touched = touched || $r == nil
+//@   ensures result1 == nil ==> touched
+//@   ensures result1 == iface(CollisionError) ==> collided
+//@   loop 1: invariant hash == old(hash) && buf == old(buf) && !touched
+//@   loop 1: invariant !collided && bestErr != nil && bestErr != iface(CollisionError)
+
+//@ func PutBlock property C01
+//@   ghost stored bool = false
+//@   calls CompareAndTouch#1: requires md5hex(string(block)) == hash && $2 == hash && $3 == block
+//@   calls CompareAndTouch#1: set stored = stored || $r1 == nil
+//@   calls Volume.Put#*: requires md5hex(string(block)) == hash && $1 == hash && $2 == block
+//@   calls Volume.Put#*: set stored = stored || $r == nil
+//@   ensures result1 == nil ==> md5hex(string(block)) == hash && stored
+//@   loop 1: invariant !stored && hash == old(hash) && block == old(block) && md5hex(string(block)) == hash
+
+// handleGET: block data is written to the response only after GetBlock
+// succeeded, exactly buf[:size] with Content-Length size; with blob signing
+// enabled GetBlock is reached only after VerifySignature accepted the
+// request's locator for the request's token (C07).
+//@ func router.handleGET property C01,C07 safety -bounds
+//@   ghost verified bool = false
+//@   ghost tok string = ""
+//@   ghost got bool = false
+//@   ghost gsize int = 0
+//@   calls GetAPIToken#1: requires $0 == req
+//@   calls GetAPIToken#1: set tok = $r
+//@   calls VerifySignature#1: requires $0 == rtr.cluster && $1 == req.URL.Path[1:] && $2 == tok
+//@   calls VerifySignature#1: set verified = ($r == nil)
+//@   calls GetBlock#1: requires rtr.cluster.Collections.BlobSigning ==> verified
+//@   calls GetBlock#1: set got = ($r1 == nil)
+//@   calls GetBlock#1: set gsize = $r0
+//@   calls ResponseWriter.Write#1: requires got && $0 == buf[0:gsize]
+//@   calls Header.Set#1: requires got && $1 == itoa(gsize)
+
+// handlePUT: the locator line is written only after PutBlock accepted the body.
+//@ func router.handlePUT property C01,C07 safety -bounds
+//@   ghost put bool = false
+//@   ghost tok string = ""
+//@   calls PutBlock#1: set put = ($r1 == nil)
+//@   calls GetAPIToken#1: requires $0 == req
+//@   calls GetAPIToken#1: set tok = $r
+//@   calls SignLocator#1: requires $0 == rtr.cluster && $2 == tok
+//@   calls ResponseWriter.Write#1: requires put
